@@ -73,6 +73,131 @@ pub fn records(bytes: &[u8]) -> Result<Vec<NItem>, Fail> {
     }
 }
 
+fn item_key(i: &Result<proguard::ProguardRecord<'_>, proguard::ParseError<'_>>) -> String {
+    match i {
+        Ok(r) => format!("Ok({r:?})"),
+        Err(e) => format!("Err({:?})", e.line()),
+    }
+}
+
+/// "Iterating its records" is any use of the iterator: `nth`, `skip`, `step_by`, `count`, `last`, a clone taken
+/// mid-way, and the iterator of a `section()` must all agree with what plain `next()` yields.
+pub fn check_iter_api(bytes: &[u8], st: &mut Stats) -> Check {
+    st.evaluations += 1;
+    let r = guarded(|| -> Check {
+        let m = proguard::ProguardMapping::new(bytes);
+        let all: Vec<String> = m.iter().map(|i| item_key(&i)).collect();
+        let n = all.len();
+        if m.iter().count() != n {
+            return Err(Fail::new("iter-api", format!("count() = {} but next() yields {n} items", m.iter().count())));
+        }
+        if m.iter().last().map(|i| item_key(&i)) != all.last().cloned() {
+            return Err(Fail::new("iter-api", "last() differs from the last item yielded by next()"));
+        }
+        for k in [0usize, 1, 2, 3, 5, n / 2, n.saturating_sub(1), n, n + 1] {
+            let got = m.iter().nth(k).map(|i| item_key(&i));
+            if got != all.get(k).cloned() {
+                return Err(Fail::new("iter-api", format!("nth({k}) = {got:?} but the item at index {k} is {:?} ({} bytes of input)", all.get(k), bytes.len())));
+            }
+            let got: Vec<String> = m.iter().skip(k).map(|i| item_key(&i)).collect();
+            if got[..] != all[k.min(n)..] {
+                return Err(Fail::new("iter-api", format!("skip({k}) yields {} items, expected {}", got.len(), n - k.min(n))));
+            }
+        }
+        for step in [2usize, 3, 7] {
+            let got: Vec<String> = m.iter().step_by(step).map(|i| item_key(&i)).collect();
+            let want: Vec<String> = all.iter().step_by(step).cloned().collect();
+            if got != want {
+                return Err(Fail::new("iter-api", format!("step_by({step}) differs from every {step}-th item of next()")));
+            }
+        }
+        // a clone taken mid-way continues exactly where the original does
+        let mut it = m.iter();
+        for k in 0..n.min(4) {
+            let _ = it.next();
+            let rest_clone: Vec<String> = it.clone().map(|i| item_key(&i)).collect();
+            if rest_clone[..] != all[k + 1..] {
+                return Err(Fail::new("iter-api", format!("a clone of the iterator taken after {} items does not continue with the remaining items", k + 1)));
+            }
+        }
+        Ok(())
+    });
+    match r {
+        Ok(c) => c,
+        Err(p) => Err(Fail::new("parse-panic", format!("iterator adaptor panicked: {p}"))),
+    }
+}
+
+/// `section(range)` is the mapping of exactly those bytes, whatever was asked of the parent before.
+pub fn check_section(bytes: &[u8], key: u64, st: &mut Stats) -> Check {
+    if bytes.is_empty() {
+        return Ok(());
+    }
+    st.evaluations += 1;
+    let r = guarded(|| -> Check {
+        let parent = proguard::ProguardMapping::new(bytes);
+        // use the parent first (anything it may memoise is now filled)
+        let _ = parent.has_line_info();
+        let _ = parent.is_valid();
+        let _ = parent.summary().class_count();
+        let _ = parent.iter().count();
+        let _ = parent.uuid();
+        // ranges at line starts and at arbitrary offsets
+        let mut cuts: Vec<usize> = vec![0, bytes.len()];
+        cuts.extend(bytes.iter().enumerate().filter(|(_, c)| **c == b'\n').map(|(i, _)| i + 1).take(40));
+        let mut x = key | 1;
+        for _ in 0..4 {
+            x ^= x << 13;
+            x ^= x >> 7;
+            x ^= x << 17;
+            cuts.push((x as usize) % (bytes.len() + 1));
+        }
+        cuts.sort();
+        cuts.dedup();
+        for (i, &a) in cuts.iter().enumerate() {
+            for &b in cuts.iter().skip(i).step_by(3) {
+                let sec = parent.section(a..b);
+                let fresh = proguard::ProguardMapping::new(&bytes[a..b]);
+                let got: Vec<String> = sec.iter().map(|i| item_key(&i)).collect();
+                let want: Vec<String> = fresh.iter().map(|i| item_key(&i)).collect();
+                if got != want {
+                    return Err(Fail::new("section-records", format!("section({a}..{b}) of a {}-byte mapping yields {} records, the same bytes as a new mapping yield {}", bytes.len(), got.len(), want.len())));
+                }
+                let meta = |m: &proguard::ProguardMapping| {
+                    let s = m.summary();
+                    (m.has_line_info(), m.is_valid(), s.class_count(), s.method_count(), s.compiler().map(|x| x.to_string()), s.compiler_version().map(|x| x.to_string()), s.min_api(), m.uuid())
+                };
+                let (g, w) = (meta(&sec), meta(&fresh));
+                if g != w {
+                    return Err(Fail::new("section-metadata", format!("section({a}..{b}) answers {g:?}, a new mapping over the same bytes answers {w:?}")));
+                }
+                let gc = meta(&sec.clone());
+                if gc != w {
+                    return Err(Fail::new("section-metadata", format!("clone of section({a}..{b}) answers {gc:?}, expected {w:?}")));
+                }
+                let write = |m: &proguard::ProguardMapping| {
+                    let mut v = Vec::new();
+                    proguard::ProguardCache::write(m, &mut v).map(|_| v).map_err(|e| e.to_string())
+                };
+                if write(&sec) != write(&fresh) {
+                    return Err(Fail::new("section-write", format!("ProguardCache::write of section({a}..{b}) differs from writing a new mapping over the same bytes")));
+                }
+            }
+        }
+        // and the parent is unaffected by what its sections were asked
+        let again: Vec<String> = parent.iter().map(|i| item_key(&i)).collect();
+        let fresh: Vec<String> = proguard::ProguardMapping::new(bytes).iter().map(|i| item_key(&i)).collect();
+        if again != fresh {
+            return Err(Fail::new("section-records", "the parent mapping yields different records after its sections were used"));
+        }
+        Ok(())
+    });
+    match r {
+        Ok(c) => c,
+        Err(p) => Err(Fail::new("parse-panic", format!("section()/clone() sequence panicked: {p}"))),
+    }
+}
+
 pub fn check_split(a: &[u8], t: &[u8], b: &[u8], st: &mut Stats) -> Check {
     st.evaluations += 1;
     let mut s = Vec::with_capacity(a.len() + t.len() + b.len());
@@ -160,6 +285,13 @@ pub fn check_pair(c: &PairCase, st: &mut Stats) -> Check {
     for t in [&b"\n"[..], b"\r", b"\r\n"] {
         check_split(&a, t, &b, st)?;
     }
+    let mut joined = a.clone();
+    joined.extend_from_slice(b"\r\n");
+    joined.extend_from_slice(&b);
+    check_iter_api(&joined, st)?;
+    if st.cases % 8 == 0 {
+        check_section(&joined, c.a.len() as u64 * 31 + c.b.len() as u64, st)?;
+    }
     Ok(())
 }
 
@@ -196,6 +328,8 @@ pub fn check_mutant(c: &mutate::MutCase, st: &mut Stats) -> Check {
     if b.windows(20).any(|w| w.iter().all(|c| c.is_ascii_digit())) {
         st.class("huge digit runs");
     }
+    check_iter_api(&b, st)?;
+    check_section(&b, c.key, st)?;
     check_bytes(&b, 64, st)
 }
 
@@ -223,6 +357,9 @@ pub fn check_chunk(c: &Chunk, st: &mut Stats) -> Check {
         }
         st.evaluations += 1;
         records(&s)?;
+        if c.len <= 5 {
+            check_iter_api(&s, st)?;
+        }
         for (k, i) in idx.iter().enumerate() {
             if *i == 5 || *i == 6 {
                 let at = offs[k];
@@ -253,13 +390,17 @@ pub struct CorpusSplit {
 pub fn check_corpus(c: &CorpusSplit, st: &mut Stats) -> Check {
     let bytes = std::fs::read(&c.path).map_err(|e| Fail::new("harness-io", format!("{}: {e}", c.path)))?;
     st.class("corpus file");
+    if bytes.len() < 100_000 {
+        check_iter_api(&bytes, st)?;
+        check_iter_api(&mutate::to_crlf(&bytes), st)?;
+    }
     check_bytes(&bytes, c.splits, st)?;
     check_bytes(&mutate::to_crlf(&bytes), c.splits / 2 + 1, st)
 }
 
 pub fn run(ctx: &Ctx) -> Report {
     let mut rep = Report::new(ID, "exploration", ctx);
-    rep.rule = "Generated: pairs (A,B) of token soups over the grammar's delimiters (4 spaces, ':', ' -> ', parentheses, '#', LF, CR, CRLF, the sourceFile JSON prefix/suffix, quotes, 0xff, 0xb2, huge digit runs, whole valid lines) joined by LF, CR and CRLF; random byte strings and delimiter-byte strings split at every line break; hostile token mutants of generated mappings (numbers around 2^32/2^64, invalid UTF-8, unterminated sourceFile headers); corpus files cut at sampled line boundaries; bounded-exhaustive: all strings of <=6 (quick) / <=7 (thorough) symbols over an 11-symbol alphabet (a, space, arrow, colon, #, LF, CR, sourceFile prefix, quote-brace, backslash, VT), split at every LF/CR symbol. Oracle: iteration terminates with items <= input bytes, no yielded component contains CR/LF, and records(A ++ t ++ B) == records(A) ++ records(B) after norm (error items compared by their line without terminators; error items with an empty line dropped). evaluations = inputs iterated + split relations checked. Non-trivial = distinct (input, split) whose records contain both an Ok and an Err item, or whose A ends in an error line.".into();
+    rep.rule = "Generated: pairs (A,B) of token soups over the grammar's delimiters (4 spaces, ':', ' -> ', parentheses, '#', LF, CR, CRLF, the sourceFile JSON prefix/suffix, quotes, 0xff, 0xb2, huge digit runs, whole valid lines) joined by LF, CR and CRLF; random byte strings and delimiter-byte strings split at every line break; hostile token mutants of generated mappings (numbers around 2^32/2^64, invalid UTF-8, unterminated sourceFile headers); corpus files cut at sampled line boundaries; bounded-exhaustive: all strings of <=6 (quick) / <=7 (thorough) symbols over an 11-symbol alphabet (a, space, arrow, colon, #, LF, CR, sourceFile prefix, quote-brace, backslash, VT), split at every LF/CR symbol. Oracle: iteration terminates with items <= input bytes; every way of iterating (nth, skip, step_by, count, last, a clone taken mid-way, the iterator of a section() taken after the parent was used) yields what plain next() yields; no yielded component contains CR/LF, and records(A ++ t ++ B) == records(A) ++ records(B) after norm (error items compared by their line without terminators; error items with an empty line dropped). evaluations = inputs iterated + split relations checked. Non-trivial = distinct (input, split) whose records contain both an Ok and an Err item, or whose A ends in an error line.".into();
     rep.assumptions = vec!["phantom error items for blank trailing input are ignored (norm)".into()];
     rep.run_stage("pairs", pair_case, ctx.cases(150_000, 12_000_000), check_pair);
     rep.run_stage("bytes", bytes_case, ctx.cases(20_000, 1_500_000), |c: &BytesCase, st: &mut Stats| check_bytes(&unhex(&c.hex), 32, st));
